@@ -18,6 +18,8 @@ func TestVerifStream(t *testing.T) {
 			return verifKey(ws)
 		case ws[0] == "ring.rehash":
 			return verifRehash(ws)
+		case strings.HasPrefix(ws[0], "pb."):
+			return verifPb(ws)
 		}
 		return "", false
 	})
